@@ -12,7 +12,7 @@ func init() {
 			checkC16(p, l)
 			// a number that comes out of a numeric built-in is the number Go's math function gives (C17's routing rule):
 			// a hand-written replacement differs from it exactly on the values that only show in some contexts (-0, NaN, ±Inf)
-			l.AsOnly(map[string]string{"C17/I1-routing": "C16/S5-builtin-numbers"}, func() { checkC17(p, l) })
+			l.AsOnly(map[string]string{"C17/I1-routing": "C16/S5-builtin-numbers", "C17/S2-minmax": "C16/S5-builtin-numbers/minmax"}, func() { checkC17(p, l) })
 		},
 		Explain: "Decided (S1): origin can influence behaviour only through the Go representation of a value, so the checker computes the value universe U — every Go dynamic type that a MakeInterface instruction of the module can put into a Borno value position (results of eval / built-ins, environment and container stores, literals) — groups it by Borno kind (number, string, bool, array, object, function) and requires exactly one representation per kind; every producer of an extra representation is reported with its producing site. " +
 			"Also decided: no value of a non-Borno Go type ('other' kind) enters the universe; and (S3) no code outside eval's dispatch tests the syntactic kind of an operand node (documented parser sites excepted), so a literal and a computed value of the same content cannot be told apart by syntax. Not decided: behaviour of equal representations with different content (that is C02/C14/C15); a tree that keeps two representations but treats them uniformly at every consumer would be rejected (sufficient-condition rule, stated in DESIGN.md).",
